@@ -84,7 +84,21 @@ def path(c, job):
                 continue
             got = ntcore.STORE.types.get(f"/components/o{i}/t")
             c.prove("C09.type topic-type-from-default-or-hint", got is not None and got[0] == topic, info=dict(default=repr(default), hint=str(hint), got=got))
-            c.prove("C09.type initial-read-is-default", list(o.t) == list(default) if isinstance(default, (list, tuple)) else o.t == default)
+            try:
+                ok = list(o.t) == list(default) if isinstance(default, (list, tuple)) else o.t == default
+            except Exception as e:
+                ok = False
+            c.prove("C09.type initial-read-is-default", ok, info=dict(default=repr(default)))
+            # an NT-side write (no python-side assignment in between, same or later time stamp) is seen by the next read
+            if isinstance(default, (list, tuple)) and default:
+                try:
+                    first = list(o.t)
+                    nv = list(default)[::-1] + list(default)[:1]
+                    ntcore.NetworkTableInstance.getDefault().getEntry(f"/components/o{i}/t").set(nv)
+                    ok = list(o.t) == nv
+                except Exception as e:
+                    ok = False
+                c.prove("C09.rw read-returns-latest-from-either-side", ok, info=dict(default=repr(default), array=True))
             # write / read round trip on the typed entry
             v2 = default[::-1] if isinstance(default, (list, tuple, bytes, str)) else (not default if isinstance(default, bool) else default + 1)
             try:
